@@ -23,7 +23,26 @@ namespace H4.Props.C14
 open H4.ReadOnly H4.Gen.Hdf
 
 /-- the source as it is now has all four DD-layer access tests, and `Hopen` records the write access gained by a reopen -/
-theorem current_guarded : Cfg.current.guarded = true ∧ Cfg.current.reopenSetsAccess = true := by decide
+theorem current_guarded : Cfg.current.guarded = true ∧ Cfg.current.reopenSetsAccess = true ∧ Cfg.current.hlRefusesZero = true := by decide
+
+/-- Tie A anchor for `hpRead`: the source's `HP_read` delivers zeros for space reserved in this session under DD caching
+    (`FILE_END_DIRTY`, range below `f_end_off`) and reports every other short read (af826f2); `hpRead` is written for that text -/
+theorem current_read_zero_fills_reserved : H4.Gen.Src.HPREAD_ZERO_FILLS_RESERVED = true := by decide
+
+/-- `hpRead` is a function of the state: reading never changes the file, whatever it delivers; space reserved in this session
+    reads as zeros, a range that is not below `f_end_off` is an error -/
+theorem hpRead_reserved_is_zeros (s : State) (off n : Nat) (hn : n ≠ 0) (hd : s.f.disk.length ≤ off)
+    (hc : s.f.cache = true) (hdirty : s.f.dirty &&& H4.Gen.RO.FILE_END_DIRTY ≠ 0) (he : off + n ≤ s.f.endOff) :
+    hpRead s off n = some (List.replicate n 0) := by
+  have h1 : ¬ (off + n ≤ s.f.disk.length) := by omega
+  have h2 : s.f.disk.drop off = [] := List.drop_eq_nil_of_le hd
+  simp [hpRead, hn, h1, hc, hdirty, he, h2]
+
+theorem hpRead_beyond_end_fails (s : State) (off n : Nat) (hn : n ≠ 0) (hd : s.f.disk.length < off + n) (he : s.f.endOff < off + n) :
+    hpRead s off n = none := by
+  have h1 : ¬ (off + n ≤ s.f.disk.length) := by omega
+  have h2 : ¬ (off + n ≤ s.f.endOff) := by omega
+  simp [hpRead, hn, h1, h2]
 
 /-- a closed file (any bytes, any external files) satisfies the read-only invariant -/
 theorem closed_inv (disk : Bytes) (exts : List (Nat × Bytes)) : Inv (State.closed disk exts) :=
@@ -204,7 +223,7 @@ These four configurations are what /repo's source said before the `fix:` commits
 and 605d701 (`Hsetlength`): on a handle opened `DFACC_READ` the calls return SUCCEED, change the DD list in memory, and the
 `Hclose` that follows FAILS because its flush is refused by the read-only stream (the write log shows the request). -/
 
-def allChecks : Cfg := ⟨true, true, true, true, true⟩
+def allChecks : Cfg := ⟨true, true, true, true, true, true⟩
 
 theorem unguarded_deldd_accepts :
     results { allChecks with hdelddChecks := false } (State.closed tiny) [.hopen DFACC_READ, .deldd 0 1000 1, .hexist 0 1000 1, .hclose 0]
